@@ -12,7 +12,7 @@ RULE = ('E1.31: valid data packets (current and rev2 framing) and discovery page
         'previous PDU in the block, blocks ending inside a length field, wrong vectors, zero CID x DMP address '
         'type/size nibbles, increment, number of slots (0, n-1..n+2, 512-514, 0xffff), start codes, options, '
         'priorities 199-201, universes x DMP data cut at 0/1/5/6/7/8 bytes x >512 slots (clamp) x DMP PDUs ending exactly at each field boundary with consistent outer lengths after a full packet for '
-        'the same/another universe x blocks of 2-3 PDUs per layer whose last PDU claims remaining-1/remaining/+1/+40/its untruncated length/block/block+1 with V/H inheritance flags varied, after a longer datagram x 2-4 CIDs merged at one priority then a priority raise by the source tracked first/second/last, followed by datagrams from the raiser and the dropped sources (handler buffer, active priority and per-source buffers compared with the model after every datagram) x source names of LEN-2/LEN-1/LEN non-NUL bytes followed by non-zero bytes (decoded source name observed at HandlePDUData and the discovery callback) x universe-discovery page histories of up to 258 datagrams driving the 8-bit page counters to 0/1/2/127/128/254/255 (all pages, shuffled, one missing/duplicated/beyond last, 1-2 CIDs) with E131Node::GetKnownControllers() compared after every datagram x E1.33 (RPT) / LLRP packets (root -> framing header -> RDM PDU) with the same '
+        'the same/another universe x blocks of 2-3 PDUs per layer whose last PDU claims remaining-1/remaining/+1/+40/its untruncated length/block/block+1 with V/H inheritance flags varied, after a longer datagram x 2-4 CIDs merged at one priority then a priority raise by the source tracked first/second/last, followed by datagrams from the raiser and the dropped sources (handler buffer, active priority and per-source buffers compared with the model after every datagram) x source names of LEN-2/LEN-1/LEN non-NUL bytes followed by non-zero bytes (decoded source name observed at HandlePDUData and the discovery callback) x ACN preambles with the right identifier but every combination of non-standard preamble-size / post-amble-size fields (0, 15-18, datagram length -1/0/+1, 0xffff; sums beyond the datagram) after a longer datagram x universe-discovery page histories of up to 258 datagrams driving the 8-bit page counters to 0/1/2/127/128/254/255 (all pages, shuffled, one missing/duplicated/beyond last, 1-2 CIDs) with E131Node::GetKnownControllers() compared after every datagram x E1.33 (RPT) / LLRP packets (root -> framing header -> RDM PDU) with the same '
         'length/flag/vector mutations x every truncation '
         'length 0-139 and around the end x datagrams of capacity-1/capacity/capacity+1/1600 bytes with consistent '
         'and inconsistent lengths x discovery pages with an odd payload length x 3-9 packet sequences from several '
@@ -518,6 +518,32 @@ def disc_histories(rng, quick):
             yield dgs
 
 
+def preambles(rng, quick):
+    """yield lists of datagrams: a valid packet whose ACN preamble keeps the packet identifier but carries every
+    combination of non-standard preamble-size / post-amble-size fields (0, 15, 16, 17, the datagram length -1/0/+1,
+    0xffff; post-amble 0, 1, 16, what is left after the preamble -1/0/+1, the datagram length, 0xffff; sums that
+    exceed the datagram), after a longer datagram; and identifiers that differ in one byte"""
+    for kind in ('data', 'disc'):
+        v = P(rng, kind=kind, uni=1, cid=cid_of(1), prio=100, opts=0, slots=[rng.randrange(1, 256) for _ in range(20)],
+              unis=[1, 2, 3])
+        base = v.build()
+        n = len(base)
+        prev = P(rng, kind='data', uni=1, cid=cid_of(2), prio=100, slots=[rng.randrange(1, 256) for _ in range(512)]).build()
+        pres = [0, 15, 16, 17, 18, 38, n - 1, n, n + 1, 0xffff]
+        posts = [0, 1, 16, 22, n - 17, n - 16, n - 15, n - 1, n, n + 1, 0xffff]
+        combos = [(a, b) for a in pres for b in posts if (a, b) != (16, 0)]
+        if quick:
+            combos = rng.sample(combos, 30) + [(16, 1), (16, n - 16), (16, n - 15), (17, 0), (n, 0), (n, 1), (n - 1, 2)]
+        for a, b in combos:
+            d = list(base)
+            d[0:4] = be16(a & 0xffff) + be16(b & 0xffff)
+            yield [prev, d]
+        for i in range(4, 16):
+            d = list(base)
+            d[i] ^= 1
+            yield [prev, d]
+
+
 def odd_disc(rng):
     """discovery pages whose universe list has an odd number of bytes (fixes/02)"""
     v = P(rng, kind='disc', unis=[1, 2])
@@ -578,6 +604,9 @@ def gen_cases(rng, tier):
             yield 'acn %s %s' % (cfg, ' '.join(dgs))
         for cfg, dgs in prio_raise(rng, quick):
             yield 'acn %s %s' % (cfg, ' '.join(dgs))
+    for _ in range(1 if quick else 4):
+        for dgs in preambles(rng, quick):
+            yield 'acn 0,1:none,2:none %s' % ' '.join(hx(d) for d in dgs)
     for _ in range(1 if quick else 4):
         for dgs in disc_histories(rng, quick):
             yield 'acn %s %s' % (config(rng), ' '.join(hx(d) for d in dgs))
